@@ -18,6 +18,7 @@ import (
 	"context"
 	"fmt"
 	"sort"
+	"strings"
 	"time"
 
 	"github.com/sdcio/cache/pkg/cache"
@@ -100,12 +101,25 @@ func (c *localCache) Modify(ctx context.Context, name string, opts *Opts, dels [
 	//
 	var err error
 	for _, del := range dels {
-		err = c.c.DeletePrefix(ctx, name, &cache.Opts{
+		wo := &cache.Opts{
 			Store:    getStore(opts.Store),
 			Path:     [][]string{del}, // TODO:
 			Owner:    opts.Owner,
 			Priority: opts.Priority,
-		})
+		}
+		if len(del) > 0 && (wo.Store == cache.StoreConfig || wo.Store == cache.StoreState) && !strings.Contains(strings.Trim(name, "/"), "/") {
+			// the cache matches the joined path elements as a string prefix: "sys,mtu" would also remove
+			// "sys,mtu-ext" and "if,e1" also "if,e10,...". Remove the leaf itself, then only what lies
+			// below the path element wise.
+			err = c.c.DeleteValue(ctx, name, wo)
+			if err != nil {
+				return err
+			}
+			below := make([]string, 0, len(del)+1)
+			below = append(append(below, del...), "")
+			wo.Path = [][]string{below}
+		}
+		err = c.c.DeletePrefix(ctx, name, wo)
 		if err != nil {
 			return err
 		}
